@@ -11,16 +11,28 @@
 #include <pthread.h>
 #include <stdbool.h>
 
+/* built once per property with exactly one of -DPURE_BITS (C16) / -DPURE_RAND (C17) / -DPURE_ROTENC (C19): only that unit's
+ * library sources are compiled in, so a change that stops one unit from compiling cannot silence the other checks */
+#if !defined(PURE_BITS) && !defined(PURE_RAND) && !defined(PURE_ROTENC)
+#define PURE_BITS
+#define PURE_RAND
+#define PURE_ROTENC
+#endif
+#ifdef PURE_BITS
 #include "bitops.c"
-#include "rand.c"
-#include "rotenc.c"
 #include "regdump.c"
+#endif
+#ifdef PURE_RAND
+#include "rand.c"
+#endif
+#ifdef PURE_ROTENC
+#include "rotenc.c"
+#endif
+#ifdef PURE_BITS
 #include <librfn/constexpr.h>
-#include <librfn/util.h>
-int32_t cyclecmp32(uint32_t a, uint32_t b);
-
 static int rt_const_pop(uint64_t c) { return const_pop(c); }
 static int rt_const_lssb(uint64_t c) { return const_lssb(c); }
+#endif
 
 /* independent references */
 static int ref_pop64(uint64_t x) { return __builtin_popcountll(x); }
@@ -43,7 +55,9 @@ static void *sweep_thread(void *arg)
 	const char *w = j->what;
 	for (uint64_t v = j->lo; v < j->hi && !j->fail[0]; v++) {
 		j->n++;
-		if (!strcmp(w, "bitops")) {
+		if (0) {
+#ifdef PURE_BITS
+		} else if (!strcmp(w, "bitops")) {
 			uint32_t x = (uint32_t)v;
 			int g, r;
 			if ((g = bitcnt(x)) != (r = __builtin_popcount(x)))
@@ -54,12 +68,16 @@ static void *sweep_thread(void *arg)
 				snprintf(j->fail, sizeof j->fail, "ctz %u got=%d want=%d", x, g, r);
 			else if (x && (g = ilog2(x)) != (r = 31 - ref_clz(x)))
 				snprintf(j->fail, sizeof j->fail, "ilog2 %u got=%d want=%d", x, g, r);
+#endif
+#ifdef PURE_RAND
 		} else if (!strcmp(w, "rand31")) {
 			if (v < 1 || v > 2147483646u) continue;
 			uint32_t s = (uint32_t)v, r = rand31_r(&s);
 			uint32_t want = (uint32_t)((16807ull * v) % 2147483647ull);
 			if (r != want || s != want)
 				snprintf(j->fail, sizeof j->fail, "rand31 %llu got=%u/%u want=%u", (unsigned long long)v, r, s, want);
+#endif
+#ifdef PURE_ROTENC
 		} else if (!strcmp(w, "rotenc")) {
 			/* v = ls(2) | next(2) | count(8) | ic(16) */
 			unsigned ls = v & 3, nx = (v >> 2) & 3, ic = (v >> 12) & 0xffff;
@@ -74,6 +92,7 @@ static void *sweep_thread(void *arg)
 			    || (cmask >= 0x3fff && rotenc_count14(&r) != (wcnt & 0x3fff)))
 				snprintf(j->fail, sizeof j->fail, "rotenc %u %u %u %u got=%u/%u/%u want=%u/%u/%u", ls, cnt, ic, nx,
 					 r.last_state, (unsigned)r.count, r.internal_count, nx, wcnt, wic);
+#endif
 		}
 	}
 	return NULL;
@@ -100,6 +119,7 @@ static int sweep(const char *what, int nthr)
 
 static uint64_t xs64(uint64_t *s) { uint64_t x = *s; x ^= x >> 12; x ^= x << 25; x ^= x >> 27; *s = x; return x * 0x2545F4914F6CDD1Dull; }
 
+#ifdef PURE_BITS
 /* 64-bit macros: all one- and two-bit patterns, all contiguous masks, n random values */
 static int sweep_macros(uint64_t seed, uint64_t nrand)
 {
@@ -117,7 +137,9 @@ static int sweep_macros(uint64_t seed, uint64_t nrand)
 	printf("OK %llu\n", (unsigned long long)n);
 	return 0;
 }
+#endif
 
+#ifdef PURE_ROTENC
 /* C19 random walks against the true (unbounded) position.  Walks head for the 8-, 14- and 16-bit wrap
  * points of the click / quarter-step counters in both directions and dither across them, with contact
  * bounce, repeated states and invalid two-bit jumps mixed in.  Prints the shortest failing prefix. */
@@ -186,15 +208,20 @@ static int walk_replay(const char *states)
 	       rotenc_count(&r), rotenc_count14(&r), (unsigned)(fdiv4(L) & 0x3fff));
 	return 0;
 }
+#endif
 
 int main(int argc, char **argv)
 {
+#ifdef PURE_ROTENC
 	if (argc >= 5 && !strcmp(argv[1], "walk"))
 		return walk(strtoull(argv[2], 0, 10), atol(argv[3]), atol(argv[4]));
 	if (argc >= 3 && !strcmp(argv[1], "walkreplay"))
 		return walk_replay(argv[2]);
+#endif
+#ifdef PURE_BITS
 	if (argc >= 4 && !strcmp(argv[1], "macros"))
 		return sweep_macros(strtoull(argv[2], 0, 10), strtoull(argv[3], 0, 10));
+#endif
 	if (argc >= 3 && !strcmp(argv[1], "sweep"))
 		return sweep(argv[2], argc > 3 ? atoi(argv[3]) : 16);
 	char line[256], op[32];
@@ -203,7 +230,9 @@ int main(int argc, char **argv)
 		unsigned long long a = 0, b = 0, c = 0, d = 0;
 		int n = sscanf(line, "%31s %llu %llu %llu %llu", op, &a, &b, &c, &d);
 		if (n < 2) { puts("bad-op"); continue; }
-		if (!strcmp(op, "bitcnt")) printf("%d\n", bitcnt((uint32_t)a));
+		if (0) ;
+#ifdef PURE_BITS
+		else if (!strcmp(op, "bitcnt")) printf("%d\n", bitcnt((uint32_t)a));
 		else if (!strcmp(op, "clz")) printf("%d\n", clz((uint32_t)a));
 		else if (!strcmp(op, "ctz")) printf("%d\n", ctz((uint32_t)a));
 		else if (!strcmp(op, "ilog2")) printf("%d\n", a ? ilog2((uint32_t)a) : 31 - clz(0));
@@ -219,14 +248,18 @@ int main(int argc, char **argv)
 			if (p) { char *nl = strchr(p, '\n'); if (nl) *nl = 0; }
 			printf("%s\n", p ? p + 4 : "none"); free(buf);
 		}
+#endif
+#ifdef PURE_RAND
 		else if (!strcmp(op, "rand31")) { uint32_t s = (uint32_t)a; uint32_t r = rand31_r(&s); printf("%u %u\n", r, s); }
+#endif
+#ifdef PURE_ROTENC
 		else if (!strcmp(op, "rotenc")) {
 			rotenc_t r; memset(&r, 0, sizeof r);
 			r.last_state = a; r.count = b; r.internal_count = c;
 			rotenc_decode(&r, (uint8_t)d);
 			printf("%u %u %u %u %u\n", r.last_state, (unsigned)r.count, r.internal_count, rotenc_count14(&r), rotenc_count(&r));
 		}
-		else if (!strcmp(op, "cyclecmp32")) printf("%d\n", cyclecmp32((uint32_t)a, (uint32_t)b));
+#endif
 		else puts("bad-op");
 	}
 	return 0;
